@@ -552,6 +552,120 @@ theorem c10_validators_reject_exactly (env : Env) (c : Str) :
       | recursionError => simp
       | other => exact absurd hjs hj
 
+/-- **Innate: an input blocked by accumulated inflammation (ACUTE) stays blocked.**  `check` also rejects when the
+    matched patterns — each possibly below the severity threshold — add up to inflammation level ACUTE.  If `c` is
+    answered with level ACUTE, and `c'` keeps every hit of `c` (a case variant, an embedding: `keepsHits_of_case`,
+    `keepsHits_of_embed`) while no fewer validators reject it, then `c'` is answered with ACUTE and rejected by every
+    gate state with the same patterns and cut-offs, at every time, whatever its inflammation history, threshold and
+    hook are.  More generally the level never decreases from `c` to `c'` in the same state. -/
+theorem c10_innate_acute_stays_blocked (env : Env) (im im' : Innate) (now now' : Nat) (c c' : Str)
+    (hsame : im'.patterns = im.patterns ∧ im'.cuts = im.cuts)
+    (hkeeps : KeepsHits env im.patterns c c')
+    (errs errs' : List Validator) (he : runValidators env im.validators c = .ok errs)
+    (he' : runValidators env im'.validators c' = .ok errs') (hn : errs.length ≤ errs'.length) :
+    (im'.cooling now' = im.cooling now → im.levelFor env now c errs ≤ im'.levelFor env now' c' errs') ∧
+    (∀ r, (im.check env now c).2 = .ok r → r.level = lvlAcute →
+      ∀ r', (im'.check env now' c').2 = .ok r' → r'.level = lvlAcute ∧ r'.allowed = false) := by
+  obtain ⟨hsum, hmax, hlen⟩ := matched_dominates env im.patterns c c' hkeeps
+  have hmono : ∀ cool, newLevel im.cuts (sumLevels (matched env im.patterns c) + errs.length * im.cuts.errWeight)
+      (maxLevel (matched env im.patterns c)) ((matched env im.patterns c).length + errs.length) cool ≤
+      newLevel im.cuts (sumLevels (matched env im.patterns c') + errs'.length * im.cuts.errWeight)
+      (maxLevel (matched env im.patterns c')) ((matched env im.patterns c').length + errs'.length) cool := by
+    intro cool
+    apply newLevel_mono
+    · have := Nat.mul_le_mul_right im.cuts.errWeight hn; omega
+    · exact hmax
+    · omega
+  constructor
+  · intro hcool
+    unfold Innate.levelFor Innate.levelOf
+    rw [hsame.1, hsame.2, hcool]
+    exact hmono _
+  · intro r hr hac r' hr'
+    obtain ⟨hspec, -⟩ := check_spec env im now c errs he
+    obtain ⟨-, -, hl, -⟩ := hspec r hr
+    obtain ⟨hspec', -⟩ := check_spec env im' now' c' errs' he'
+    obtain ⟨-, -, hl', hal'⟩ := hspec' r' hr'
+    -- ACUTE does not depend on the cooling flag
+    have hA : ∀ k t mx n cool cool', newLevel k t mx n cool = lvlAcute → newLevel k t mx n cool' = lvlAcute := by
+      intro k t mx n cool cool' h
+      unfold newLevel lvlAcute lvlHigh lvlMedium lvlLow lvlNone at *
+      by_cases h1 : t ≥ k.acuteTotal ∨ mx ≥ k.acuteMax
+      · simp [h1]
+      · simp only [h1, if_false] at h
+        repeat' split at h
+        all_goals omega
+    have hle : ∀ k t mx n cool, newLevel k t mx n cool ≤ lvlAcute := by
+      intro k t mx n cool
+      unfold newLevel lvlAcute lvlHigh lvlMedium lvlLow lvlNone
+      repeat' split
+      all_goals omega
+    have hlv : im.levelFor env now c errs = lvlAcute := by rw [← hl]; exact hac
+    have h1 : r'.level = lvlAcute := by
+      rw [hl']
+      unfold Innate.levelFor Innate.levelOf at hlv ⊢
+      rw [hsame.1, hsame.2]
+      have h2 := hA _ _ _ _ _ (im'.cooling now') hlv
+      have h3 := hmono (im'.cooling now')
+      have h4 := hle im.cuts (sumLevels (matched env im.patterns c') + errs'.length * im.cuts.errWeight)
+        (maxLevel (matched env im.patterns c')) ((matched env im.patterns c').length + errs'.length) (im'.cooling now')
+      omega
+    refine ⟨h1, ?_⟩
+    cases ha : r'.allowed with
+    | false => rfl
+    | true =>
+      have := (hal'.mp ha).2.2
+      rw [← hl', h1] at this
+      exact absurd this (Nat.lt_irrefl _)
+
+/-- **Which validator rejections survive embedding** (the structural validators judge the whole text, so "blocked
+    stays blocked" holds for the rejections that are about something the text CONTAINS or about its being too long,
+    and only for those): a character-set rejection (NUL / control character) and the two size bounds (`max_length`,
+    JSON `max_size`) persist for `pre ++ c ++ post`.  A minimum-length rejection and a JSON parse / depth rejection do
+    not (`c10_innate_validator_block_not_embedding_stable_witness`). -/
+theorem c10_validator_rejections_stable_under_embedding (env : Env) (c pre post : Str) :
+    (∀ allowCtl allowNull, (Validator.charset allowCtl allowNull).rejects env c = true →
+      (Validator.charset allowCtl allowNull).rejects env (pre ++ c ++ post) = true) ∧
+    (∀ mn mx, mx < c.length → (Validator.length mn mx).rejects env (pre ++ c ++ post) = true) ∧
+    (∀ md ms, ms < c.length → (Validator.json md ms).rejects env (pre ++ c ++ post) = true) := by
+  refine ⟨?_, ?_, ?_⟩
+  · intro allowCtl allowNull h
+    have hx := (c10_validators_reject_exactly env c).2.1 allowCtl allowNull
+    have hy := (c10_validators_reject_exactly env (pre ++ c ++ post)).2.1 allowCtl allowNull
+    rw [hy]
+    rcases hx.mp h with ⟨h1, h2⟩ | ⟨h1, x, hx1, hx2⟩
+    · exact Or.inl ⟨h1, by simp [h2]⟩
+    · exact Or.inr ⟨h1, x, by simp [hx1], hx2⟩
+  · intro mn mx h
+    rw [(c10_validators_reject_exactly env (pre ++ c ++ post)).1 mn mx]
+    right; simp only [List.length_append]; omega
+  · intro md ms h
+    have : (pre ++ c ++ post).length > ms := by simp only [List.length_append]; omega
+    simp only [Validator.rejects, Validator.run, this, if_true]
+
+-- FULL (false, by design of the validators): every input `check` rejects is still rejected when embedded in benign text.
+/-- **Witness: a validator-blocked input need not stay blocked when embedded.**  With the shipped JSON validator,
+    `abc` is rejected (not JSON) while `"abc"` — the same text between two quote characters — is a JSON string and
+    is allowed; with `LengthValidator(min_length=5)`, `hi` is rejected and `well hi there` is allowed.  The clause
+    "a blocked input stays blocked … when embedded" is therefore claimed for signature hits
+    (`c10_innate_blocked_stays_blocked`), accumulated inflammation (`c10_innate_acute_stays_blocked`) and the
+    rejections listed in `c10_validator_rejections_stable_under_embedding`, not for these two. -/
+theorem c10_innate_validator_block_not_embedding_stable_witness :
+    (∃ (env : Env) (im : Innate) (c pre post : Str) (r r' : CheckRes),
+      (im.check env 0 c).2 = .ok r ∧ r.allowed = false ∧
+      (im.check env 0 (pre ++ c ++ post)).2 = .ok r' ∧ r'.allowed = true ∧ im.validators = [.json 10 100]) ∧
+    (∃ (env : Env) (im : Innate) (c pre post : Str) (r r' : CheckRes),
+      (im.check env 0 c).2 = .ok r ∧ r.allowed = false ∧
+      (im.check env 0 (pre ++ c ++ post)).2 = .ok r' ∧ r'.allowed = true ∧ im.validators = [.length 5 100]) := by
+  constructor
+  · exact ⟨⟨foldStd, fun _ _ => false, fun _ => true, fun s => if s = [97, 98, 99] then .decodeError else .parsed .scalar⟩,
+      Innate.new [] (some [.json 10 100]) [] 3 0 ⟨10, 5, 6, 4, 3, 2, 1, 2⟩, [97, 98, 99], [34], [34],
+      ⟨false, [], [.json 10 100], 1⟩, ⟨true, [], [], 0⟩, by decide, rfl, by decide, rfl, rfl⟩
+  · exact ⟨⟨foldStd, fun _ _ => false, fun _ => true, fun _ => .decodeError⟩,
+      Innate.new [] (some [.length 5 100]) [] 3 0 ⟨10, 5, 6, 4, 3, 2, 1, 2⟩, [104, 105],
+      [119, 101, 108, 108, 32], [32, 116, 104, 101, 114, 101],
+      ⟨false, [], [.length 5 100], 1⟩, ⟨true, [], [], 0⟩, by decide, rfl, by decide, rfl, rfl⟩
+
 /-! ## Constants regenerated from the source -/
 
 /-- The extractor recognised every constant it is responsible for (window length, default thresholds, level
@@ -839,6 +953,12 @@ example : (im0.check ⟨foldStd, fun _ _ => false, fun _ => true, fun _ => .recu
 example : ((im0.setHook (some fun _ _ => some "KeyError")).check env0 0 [106, 97, 105, 108]).2 = .raise "hook:KeyError" ∧
     ((im0.setHook (some fun _ _ => some "KeyError")).check env0 0 [106, 97, 105, 108]).1.checkCount = 1 ∧
     ((im0.setHook (some fun _ _ => some "KeyError")).check env0 0 [106, 97, 105, 108]).1.inflLevel = 4 := by decide
+
+/-- `c10_innate_acute_stays_blocked`: five severity-2 patterns (each below the threshold 3) all matched by "7":
+    total 10 ⇒ ACUTE ⇒ rejected although no single pattern reaches the threshold -/
+example : ((Innate.new [⟨[55], 2, true⟩, ⟨[55], 2, true⟩, ⟨[55], 2, true⟩, ⟨[55], 2, true⟩, ⟨[55], 2, true⟩]
+      (some []) [] 3 0 ⟨10, 5, 6, 4, 3, 2, 1, 2⟩).check env0 0 [55]).2 =
+    .ok ⟨false, [⟨[55], 2, true⟩, ⟨[55], 2, true⟩, ⟨[55], 2, true⟩, ⟨[55], 2, true⟩, ⟨[55], 2, true⟩], [], 4⟩ := by decide
 
 /-- `c10_innate_allowed_iff`: an allowed check exists (valid shallow JSON, no pattern) -/
 example : (im0.check ⟨foldStd, fun _ _ => false, fun _ => true, fun _ => .parsed (.node [.scalar])⟩ 0 [91, 49, 93]).2
